@@ -174,11 +174,28 @@ def make(rng, kind=None):
             ssig += S.push(ms)
         tx.vin[0].script_sig = ssig
     elif kind == "p2sh-generic":
-        red = S.asm(filler(rng, rng.range(1, 6)) + [1])
+        pre = None
+        if rng.chance(30):
+            # a redeem script that itself has the shape of a standard output template
+            pre = rng.bytes(rng.range(1, 30))
+            red = rng.choice([bytes([0xa9, 0x14]) + T.hash160(pre) + bytes([0x87]),                       # P2SH form
+                              bytes([0x76, 0xa9, 0x14]) + T.hash160(pre) + bytes([0x88, 0x75, 0x51]),     # P2PKH-like: DUP HASH160 <h> EQUALVERIFY DROP 1
+                              bytes([0xa8, 0x20]) + sha256(pre) + bytes([0x87])])                          # SHA256 <h> EQUAL
+        else:
+            red = S.asm(filler(rng, rng.range(1, 6)) + [1])
         spk = bytes([0xa9, 0x14]) + T.hash160(red) + bytes([0x87])
         fund = funding(spk)
         tx = spending_skeleton(fund, rng)
         pushes = b"".join(S.push_num(rng.range(0, 16)) for _ in range(rng.range(0, 3)))
+        if pre is not None:
+            pushes += S.push(pre) if len(pre) > 1 or not (1 <= pre[0] <= 16 or pre[0] == 0x81) else S.push(pre + b"\x00")
+            if len(pre) == 1 and (1 <= pre[0] <= 16 or pre[0] == 0x81):
+                # keep the push minimal: use a two-byte preimage instead
+                pre = pre + b"\x00"
+                red = bytes([0xa9, 0x14]) + T.hash160(pre) + bytes([0x87])
+                spk = bytes([0xa9, 0x14]) + T.hash160(red) + bytes([0x87])
+                fund = funding(spk)
+                tx = spending_skeleton(fund, rng)
         tx.vin[0].script_sig = pushes + S.push(red)
     elif kind == "p2sh-empty":
         # the empty redeem script: the scriptSig ends with OP_0 after some other pushes
@@ -219,7 +236,8 @@ def make(rng, kind=None):
             tx.vin[0].script_sig = S.push(prog)
     elif kind in ("p2tr", "tapscript"):
         ik = rng.below(len(KEYS))
-        depth = rng.weighted([(2, 0), (3, 1), (2, 2), (1, 3), (1, 4)]) if kind == "tapscript" else rng.choice([None, 1])
+        # Merkle paths up to the maximum a control block can carry (128 nodes)
+        depth = rng.weighted([(4, 0), (6, 1), (4, 2), (2, 3), (2, 4), (2, rng.choice([8, 15, 16, 17, 18, 31, 32, 33, 64, 127, 128]))]) if kind == "tapscript" else rng.choice([None, 1])
         # (key path + annex is left out: btcdeb pushes the annex onto the stack there and fails at once - a C03 matter)
         annex = (b"\x50" + rng.bytes(rng.range(0, 20))) if (rng.chance(25) and kind == "tapscript") else None
         if kind == "tapscript":
